@@ -184,7 +184,15 @@ def run(facts, R):
         else:
             # the head of the chain is the read of its first field; a second copy of the chain (the predicate run again after the
             # last wake-up) starts with the same read
-            heads_ = [(r[0], r[1]) for r in reads if r[2] == first[2]]
+            # (a read of that field that is not followed by the rest of the chain - `if guard.cancelled.is_none() { return Ok(()) }`
+            # after the wake-up - is no re-test: a head dominates a read of every other field of the chain)
+            chain_f = {r[2] for r in dom_reads} - {first[2]}
+
+            def _is_head(r):
+                if (r[0], r[1]) == (first[0], first[1]):
+                    return True
+                return all(any(o[2] == f_ and b.dominates(r[0], o[0]) and (r[0] != o[0] or r[1] <= o[1]) for o in reads) for f_ in chain_f)
+            heads_ = [(r[0], r[1]) for r in reads if r[2] == first[2] and _is_head(r)]
             w = must_cross(b, [term_pt(b, i)], return_points(b), heads_)
             R.check(w is None, "wait-in-loop", fn, "retest-from-head",
                     "after the condvar wait a return is reachable without re-running the predicate chain from its "
